@@ -7,7 +7,29 @@ import SageoptModel.Model.Recompile
 namespace Sageopt.Props.C11
 open Sageopt Sageopt.Compile
 
-/-- a compilation that involves no elementwise constraint collects no atoms -/
-theorem collectAtomsMem_nil : collectAtomsMem [] = [] := rfl
+/-- a compilation is the one-shot compiler of C07 applied to the objects' current state … -/
+theorem compileStep_output (cons : List Con) (dummy : Nat) :
+    (compileStep cons dummy).map (fun r => (r.1, r.2.1)) = compileBlocks cons dummy := by
+  unfold compileStep
+  cases h : compileBlocks cons dummy with
+  | error m => simp [bind, Except.bind, Except.map, h]
+  | ok p => obtain ⟨rows, K⟩ := p; simp [bind, Except.bind, Except.map, pure, Except.pure, h]
+
+/-- … and leaves that state exactly as it was -/
+theorem compileStep_state (cons : List Con) (dummy : Nat) (rows : List CRow) (K : List Cone) (post : List Con)
+    (h : compileStep cons dummy = .ok (rows, K, post)) : post = cons := by
+  unfold compileStep at h
+  cases hb : compileBlocks cons dummy with
+  | error m => simp [bind, Except.bind, hb] at h
+  | ok p =>
+    obtain ⟨r, k⟩ := p
+    simp [bind, Except.bind, pure, Except.pure, hb] at h
+    exact h.2.2.symm
+
+/-- RECOMPILE: compiling the same objects a second time gives the same blocks -/
+theorem recompile_same (cons : List Con) (dummy : Nat) (rows : List CRow) (K : List Cone) (post : List Con)
+    (h : compileStep cons dummy = .ok (rows, K, post)) : compileStep post dummy = .ok (rows, K, post) := by
+  have := compileStep_state cons dummy rows K post h
+  subst this; exact h
 
 end Sageopt.Props.C11
